@@ -32,8 +32,10 @@ func genC14(g *gen, tier string) *Scenario {
 	faults := pick(g, "none", "none", "slow", "errors")
 	sc.Family = fmt.Sprintf("%s,prob=%v,faults=%s", kind, sc.Cache.Prob, faults)
 	if g.pct(25) {
+		// entry pool: half of these runs exercise the pool's code paths without ever handing
+		// out a recycled entry (a recycled entry can receive a stale queued event: known finding)
 		sc.Cache.Pool = true
-		sc.Sim.PoolReuse = pick(g, 50, 90, 100)
+		sc.Sim.PoolReuse = pick(g, 0, 0, 50, 100)
 		sc.Family += ",pool"
 	}
 	switch faults {
@@ -137,6 +139,21 @@ var c14Model = porcupine.Model{
 }
 
 func checkC14(rd *RunData) []Violation {
+	return poolReuseSuffix(rd, checkC14x(rd))
+}
+
+// poolReuseSuffix marks the violations of runs in which the entry pool handed out recycled
+// entries: such an entry can receive an event that was queued for its previous life.
+func poolReuseSuffix(rd *RunData, vs []Violation) []Violation {
+	if rd.Sc.Cache.Pool && rd.Sc.Sim.PoolReuse > 0 {
+		for i := range vs {
+			vs[i].Sig += ",pool-reuse"
+		}
+	}
+	return vs
+}
+
+func checkC14x(rd *RunData) []Violation {
 	var vs []Violation
 	recs := sortedRecs(rd.Recs)
 	fam := rd.Sc.Cache.Kind
@@ -368,7 +385,7 @@ func genC15(g *gen, tier string) *Scenario {
 	sc.Sim.Drift = pick(g, 0, 1, 2)
 	if g.pct(25) {
 		sc.Cache.Pool = true
-		sc.Sim.PoolReuse = pick(g, 50, 90, 100)
+		sc.Sim.PoolReuse = pick(g, 0, 0, 50, 100) // see genC14
 	}
 	failing := g.pct(35)
 	sc.Family = kind + ",secondary-ok"
@@ -445,6 +462,10 @@ func setupC15(env *simEnv) {
 }
 
 func checkC15(rd *RunData) []Violation {
+	return poolReuseSuffix(rd, checkC15x(rd))
+}
+
+func checkC15x(rd *RunData) []Violation {
 	if rd.Res.Verdict != "ok" {
 		return nil
 	}
